@@ -518,6 +518,11 @@ func (wf *Workflow[I, O]) compile(ctx context.Context, options *graphCompileOpti
 
 			pair := handlerPair{
 				invoke: func(in any) (any, error) {
+					if _, mapped := in.(map[string]any); !mapped {
+						// no mapped value arrived in this run (the channel handed out the zero value of the node's
+						// input): the static values are all there is
+						in = map[string]any{}
+					}
 					values := []any{in, value}
 					return mergeValues(values)
 				},
@@ -525,6 +530,12 @@ func (wf *Workflow[I, O]) compile(ctx context.Context, options *graphCompileOpti
 					sr, sw := schema.Pipe[map[string]any](1)
 					sw.Send(value, nil)
 					sw.Close()
+
+					if in.getChunkType() != fieldMappedValueType {
+						// as above: not a stream of mapped values but the empty stream of the node's input type
+						in.close()
+						return packStreamReader(sr)
+					}
 
 					newS, err := mergeValues([]any{in, packStreamReader(sr)})
 					if err != nil {
@@ -542,6 +553,10 @@ func (wf *Workflow[I, O]) compile(ctx context.Context, options *graphCompileOpti
 				wf.g.handlerPreNode[n.key] = []handlerPair{pair}
 			} else {
 				wf.g.handlerPreNode[n.key] = append([]handlerPair{pair}, wf.g.handlerPreNode[n.key]...)
+			}
+			if _, ok := wf.g.fieldMappingRecords[n.key]; !ok {
+				// no field mapping leads to this node: the map of static values still has to be converted to its input type
+				wf.g.fieldMappingRecords[n.key] = nil
 			}
 			n.staticValues = make(map[string]any) // installed; compiling again must not install them a second time
 		}
